@@ -56,13 +56,15 @@ def b01 (b : Bool) : String := if b then "1" else "0"
 
 def runCase (payload : String) : String :=
   match payload.splitOn " " with
+  | [_src, "UNVERIFIED"] => "SKIPPED"                -- the real lexer is broken; this source was not lexed
+  | [_src, "LEXCRASH"] => "LEXER-FAILED-IN-GENERATOR"   -- the real lexer died / hung on this source
   | [_src, toks] =>
     let toks? := if toks = "-" then some [] else (toks.splitOn ",").mapM parseTok
     match toks? with
     | none => "bad-payload"
     | some ts =>
       let k := consumed ts
-      let tail := " leak=" ++ b01 (Ecal.Chan.leaks true ts.length (k + 2))
+      let tail := " leak=" ++ b01 (Ecal.Chan.leaks .sync ts.length (k + 2))
       let nt := if ts.length ≥ 3 then "\tnt=1" else ""
       match parseToks ts with
       | (some t, none) => "OK " ++ treeText t ++ " wf=" ++ b01 (WellFormed t) ++ tail ++ nt
